@@ -56,12 +56,24 @@ type vPipe struct {
 
 type vCfg struct {
 	pipes []vPipe
-	conns map[int]uint16 // connector id -> support matrix, bit (E*4+R)
-	order []int          // connector ids in generation order (for printing)
+	conns  map[int]uint16 // connector id -> requested support matrix, bit (E*4+R)
+	stable map[int]bool   // connector id -> factory built with the stable connector.NewFactory (no xconnector.Factory)
+	order  []int          // connector ids in generation order (for printing)
+	// plain receivers / processors / exporters with an odd id come from the stable receiver/processor/exporter
+	// NewFactory (three signals; only chosen when no profiles pipeline exists)
+	stablePlain bool
 }
 
 func (c *vCfg) isConn(id int) bool { _, ok := c.conns[id]; return ok }
-func (c *vCfg) supp(k, e, r int) bool { return c.conns[k]&(1<<uint(e*4+r)) != 0 }
+
+// what the connector's factory can carry: the requested pairs; a factory made with connector.NewFactory has no
+// profiles pairs at all
+func (c *vCfg) supp(k, e, r int) bool {
+	if c.stable[k] && (e == 3 || r == 3) {
+		return false
+	}
+	return c.conns[k]&(1<<uint(e*4+r)) != 0
+}
 
 var vSignals = []pipeline.Signal{pipeline.SignalTraces, pipeline.SignalMetrics, pipeline.SignalLogs, xpipeline.SignalProfiles}
 
@@ -98,9 +110,19 @@ var (
 	vRecvType = component.MustNewType("vrecv")
 	vProcType = component.MustNewType("vproc")
 	vExpType  = component.MustNewType("vexp")
+
+	vRecvTypeS = component.MustNewType("vrecvs")
+	vProcTypeS = component.MustNewType("vprocs")
+	vExpTypeS  = component.MustNewType("vexps")
 )
 
-func vConnType(m uint16) component.Type { return component.MustNewType(fmt.Sprintf("vconn_%04x", m)) }
+func vConnType(m uint16, stable bool) component.Type {
+	if stable {
+		return component.MustNewType(fmt.Sprintf("vconns_%04x", m))
+	}
+	return component.MustNewType(fmt.Sprintf("vconn_%04x", m))
+}
+
 
 func vCID(t component.Type, id int) component.ID { return component.MustNewIDWithName(t.String(), strconv.Itoa(id)) }
 
@@ -149,7 +171,8 @@ func vNew(kind, sigIn, sigOut, id int, next any) *vComp {
 func (c *vComp) Start(context.Context, component.Host) error { c.started++; return nil }
 func (c *vComp) Shutdown(context.Context) error               { c.stops++; return nil }
 func (c *vComp) Capabilities() consumer.Capabilities {
-	return consumer.Capabilities{MutatesData: c.kind == 1 || c.kind == 3}
+	// processors and connectors write the trail into the payload; exporters with id%3 == 2 also write to it
+	return consumer.Capabilities{MutatesData: c.kind == 1 || c.kind == 3 || (c.kind == 2 && c.id%3 == 2)}
 }
 func (c *vComp) ConsumeTraces(ctx context.Context, d ptrace.Traces) error     { return c.handle(ctx, 0, d) }
 func (c *vComp) ConsumeMetrics(ctx context.Context, d pmetric.Metrics) error  { return c.handle(ctx, 1, d) }
@@ -209,6 +232,19 @@ func vNewData(sig int, trail string) any {
 	}
 }
 
+func vMarkRO(data any) {
+	switch d := data.(type) {
+	case ptrace.Traces:
+		d.MarkReadOnly()
+	case pmetric.Metrics:
+		d.MarkReadOnly()
+	case plog.Logs:
+		d.MarkReadOnly()
+	case pprofile.Profiles:
+		d.MarkReadOnly()
+	}
+}
+
 func vSend(ctx context.Context, next any, data any) error {
 	switch d := data.(type) {
 	case ptrace.Traces:
@@ -245,6 +281,9 @@ func (c *vComp) handle(ctx context.Context, sig int, data any) error {
 	switch c.kind {
 	case 2:
 		c.got = append(c.got, vGetTrail(data))
+		if c.id%3 == 2 {
+			vAttrs(data).PutStr("verif.exported", strconv.Itoa(c.serial)) // a mutating exporter
+		}
 		return nil
 	case 1:
 		a := vAttrs(data)
@@ -262,7 +301,11 @@ func (c *vComp) handle(ctx context.Context, sig int, data any) error {
 					c.anomalies = append(c.anomalies, "router.Consumer("+id.String()+"): "+err.Error())
 					continue
 				}
-				if err := vSend(ctx, cons, vNewData(c.sigOut, t)); err != nil {
+				nd := vNewData(c.sigOut, t)
+				if c.id%4 == 3 {
+					vMarkRO(nd) // a connector may hand on a payload it still shares
+				}
+				if err := vSend(ctx, cons, nd); err != nil {
 					return err
 				}
 			}
@@ -272,7 +315,11 @@ func (c *vComp) handle(ctx context.Context, sig int, data any) error {
 			vAttrs(data).PutStr(vTrailKey, t)
 			return vSend(ctx, c.next, data)
 		}
-		return vSend(ctx, c.next, vNewData(c.sigOut, t))
+		nd := vNewData(c.sigOut, t)
+		if c.id%4 == 2 {
+			vMarkRO(nd)
+		}
+		return vSend(ctx, c.next, nd)
 	}
 	c.anomalies = append(c.anomalies, "a receiver instance was used as a consumer")
 	return nil
@@ -324,10 +371,94 @@ var vExpFactory = xexporter.NewFactory(vExpType, vDefCfg,
 		return vNew(2, 3, 3, vIDNum(s.ID), nil), nil
 	}, vSL))
 
-var vConnFactories = map[uint16]connector.Factory{}
+// the same components from the STABLE factory constructors (no profiles, no x-interfaces)
+var vRecvFactoryS = receiver.NewFactory(vRecvTypeS, vDefCfg,
+	receiver.WithTraces(func(_ context.Context, s receiver.Settings, _ component.Config, n consumer.Traces) (receiver.Traces, error) {
+		return vNew(0, 0, 0, vIDNum(s.ID), n), nil
+	}, vSL),
+	receiver.WithMetrics(func(_ context.Context, s receiver.Settings, _ component.Config, n consumer.Metrics) (receiver.Metrics, error) {
+		return vNew(0, 1, 1, vIDNum(s.ID), n), nil
+	}, vSL),
+	receiver.WithLogs(func(_ context.Context, s receiver.Settings, _ component.Config, n consumer.Logs) (receiver.Logs, error) {
+		return vNew(0, 2, 2, vIDNum(s.ID), n), nil
+	}, vSL))
 
-func vConnFactory(m uint16) connector.Factory {
-	if f, ok := vConnFactories[m]; ok {
+var vProcFactoryS = processor.NewFactory(vProcTypeS, vDefCfg,
+	processor.WithTraces(func(_ context.Context, s processor.Settings, _ component.Config, n consumer.Traces) (processor.Traces, error) {
+		return vNew(1, 0, 0, vIDNum(s.ID), n), nil
+	}, vSL),
+	processor.WithMetrics(func(_ context.Context, s processor.Settings, _ component.Config, n consumer.Metrics) (processor.Metrics, error) {
+		return vNew(1, 1, 1, vIDNum(s.ID), n), nil
+	}, vSL),
+	processor.WithLogs(func(_ context.Context, s processor.Settings, _ component.Config, n consumer.Logs) (processor.Logs, error) {
+		return vNew(1, 2, 2, vIDNum(s.ID), n), nil
+	}, vSL))
+
+var vExpFactoryS = exporter.NewFactory(vExpTypeS, vDefCfg,
+	exporter.WithTraces(func(_ context.Context, s exporter.Settings, _ component.Config) (exporter.Traces, error) {
+		return vNew(2, 0, 0, vIDNum(s.ID), nil), nil
+	}, vSL),
+	exporter.WithMetrics(func(_ context.Context, s exporter.Settings, _ component.Config) (exporter.Metrics, error) {
+		return vNew(2, 1, 1, vIDNum(s.ID), nil), nil
+	}, vSL),
+	exporter.WithLogs(func(_ context.Context, s exporter.Settings, _ component.Config) (exporter.Logs, error) {
+		return vNew(2, 2, 2, vIDNum(s.ID), nil), nil
+	}, vSL))
+
+type vConnKey struct {
+	m      uint16
+	stable bool
+}
+
+var vConnFactories = map[vConnKey]connector.Factory{}
+
+// vConnFactoryStable: connector.NewFactory with the non-profiles pairs of the matrix (it cannot carry others).
+func vConnFactoryStable(m uint16) connector.Factory {
+	has := func(e, r int) bool { return m&(1<<uint(e*4+r)) != 0 }
+	var o []connector.FactoryOption
+	type cs = connector.Settings
+	type cc = component.Config
+	type cx = context.Context
+	if has(0, 0) {
+		o = append(o, connector.WithTracesToTraces(func(_ cx, s cs, _ cc, n consumer.Traces) (connector.Traces, error) { return vNew(3, 0, 0, vIDNum(s.ID), n), nil }, vSL))
+	}
+	if has(0, 1) {
+		o = append(o, connector.WithTracesToMetrics(func(_ cx, s cs, _ cc, n consumer.Metrics) (connector.Traces, error) { return vNew(3, 0, 1, vIDNum(s.ID), n), nil }, vSL))
+	}
+	if has(0, 2) {
+		o = append(o, connector.WithTracesToLogs(func(_ cx, s cs, _ cc, n consumer.Logs) (connector.Traces, error) { return vNew(3, 0, 2, vIDNum(s.ID), n), nil }, vSL))
+	}
+	if has(1, 0) {
+		o = append(o, connector.WithMetricsToTraces(func(_ cx, s cs, _ cc, n consumer.Traces) (connector.Metrics, error) { return vNew(3, 1, 0, vIDNum(s.ID), n), nil }, vSL))
+	}
+	if has(1, 1) {
+		o = append(o, connector.WithMetricsToMetrics(func(_ cx, s cs, _ cc, n consumer.Metrics) (connector.Metrics, error) { return vNew(3, 1, 1, vIDNum(s.ID), n), nil }, vSL))
+	}
+	if has(1, 2) {
+		o = append(o, connector.WithMetricsToLogs(func(_ cx, s cs, _ cc, n consumer.Logs) (connector.Metrics, error) { return vNew(3, 1, 2, vIDNum(s.ID), n), nil }, vSL))
+	}
+	if has(2, 0) {
+		o = append(o, connector.WithLogsToTraces(func(_ cx, s cs, _ cc, n consumer.Traces) (connector.Logs, error) { return vNew(3, 2, 0, vIDNum(s.ID), n), nil }, vSL))
+	}
+	if has(2, 1) {
+		o = append(o, connector.WithLogsToMetrics(func(_ cx, s cs, _ cc, n consumer.Metrics) (connector.Logs, error) { return vNew(3, 2, 1, vIDNum(s.ID), n), nil }, vSL))
+	}
+	if has(2, 2) {
+		o = append(o, connector.WithLogsToLogs(func(_ cx, s cs, _ cc, n consumer.Logs) (connector.Logs, error) { return vNew(3, 2, 2, vIDNum(s.ID), n), nil }, vSL))
+	}
+	return connector.NewFactory(vConnType(m, true), vDefCfg, o...)
+}
+
+func vConnFactory(m uint16, stable bool) connector.Factory {
+	if f, ok := vConnFactories[vConnKey{m, stable}]; ok {
+		return f
+	}
+	if stable {
+		f := vConnFactoryStable(m)
+		if _, isX := f.(xconnector.Factory); isX {
+			panic("harness: connector.NewFactory unexpectedly yields an xconnector.Factory")
+		}
+		vConnFactories[vConnKey{m, true}] = f
 		return f
 	}
 	has := func(e, r int) bool { return m&(1<<uint(e*4+r)) != 0 }
@@ -383,8 +514,8 @@ func vConnFactory(m uint16) connector.Factory {
 	if has(3, 3) {
 		o = append(o, xconnector.WithProfilesToProfiles(func(_ cx, s cs, _ cc, n xconsumer.Profiles) (xconnector.Profiles, error) { return vNew(3, 3, 3, vIDNum(s.ID), n), nil }, vSL))
 	}
-	f := xconnector.NewFactory(vConnType(m), vDefCfg, o...)
-	vConnFactories[m] = f
+	f := xconnector.NewFactory(vConnType(m, false), vDefCfg, o...)
+	vConnFactories[vConnKey{m, false}] = f
 	return f
 }
 
@@ -403,6 +534,7 @@ type vObs struct {
 	started    []vNodeKey
 	recvs      []vNodeKey
 	deliv      map[vNodeKey][]vDelivery
+	delivRO    map[vNodeKey][]vDelivery // the same injections with a payload marked read-only
 	problems   [][2]string // (oracle kind, detail) found while observing
 	routers    map[vNodeKey][]string
 	routerPIDs map[vNodeKey][][2]int
@@ -410,9 +542,9 @@ type vObs struct {
 }
 
 var (
-	vReUnsup = regexp.MustCompile(`^connector "vconn_[0-9a-f]+/(\d+)" used as (exporter|receiver) in \[([^\]]*)\] pipeline but not used in any supported (receiver|exporter) pipeline$`)
-	vReConn  = regexp.MustCompile(`^connector "vconn_[0-9a-f]+/(\d+)" \((\w+) to (\w+)\)$`)
-	vReProc  = regexp.MustCompile(`^processor "vproc/(\d+)" in pipeline "([^"]+)"$`)
+	vReUnsup = regexp.MustCompile(`^connector "vconns?_[0-9a-f]+/(\d+)" used as (exporter|receiver) in \[([^\]]*)\] pipeline but not used in any supported (receiver|exporter) pipeline$`)
+	vReConn  = regexp.MustCompile(`^connector "vconns?_[0-9a-f]+/(\d+)" \((\w+) to (\w+)\)$`)
+	vReProc  = regexp.MustCompile(`^processor "vprocs?/(\d+)" in pipeline "([^"]+)"$`)
 )
 
 func vUnwrap(c component.Component) *vComp {
@@ -432,7 +564,7 @@ func vUnwrap(c component.Component) *vComp {
 }
 
 func vRun(cfg *vCfg) (obs *vObs) {
-	obs = &vObs{deliv: map[vNodeKey][]vDelivery{}, routers: map[vNodeKey][]string{}, routerPIDs: map[vNodeKey][][2]int{}}
+	obs = &vObs{deliv: map[vNodeKey][]vDelivery{}, delivRO: map[vNodeKey][]vDelivery{}, routers: map[vNodeKey][]string{}, routerPIDs: map[vNodeKey][][2]int{}}
 	reg := &vReg{}
 	vCur = reg
 	pcfg := pipelines.Config{}
@@ -442,13 +574,16 @@ func vRun(cfg *vCfg) (obs *vObs) {
 	cc := map[component.ID]component.Config{}
 	cf := map[component.Type]connector.Factory{}
 	for k, m := range cfg.conns {
-		f := vConnFactory(m)
+		f := vConnFactory(m, cfg.stable[k])
 		cf[f.Type()] = f
 		cc[vCID(f.Type(), k)] = vDefCfg()
 	}
 	ref := func(id int, t component.Type, m map[component.ID]component.Config) component.ID {
 		if mm, ok := cfg.conns[id]; ok {
-			return vCID(vConnType(mm), id)
+			return vCID(vConnType(mm, cfg.stable[id]), id)
+		}
+		if cfg.stablePlain && id%2 == 1 {
+			t = component.MustNewType(t.String() + "s")
 		}
 		cid := vCID(t, id)
 		m[cid] = vDefCfg()
@@ -460,7 +595,11 @@ func vRun(cfg *vCfg) (obs *vObs) {
 			pl.Receivers = append(pl.Receivers, ref(r, vRecvType, rc))
 		}
 		for _, x := range p.procs {
-			cid := vCID(vProcType, x)
+			pt := vProcType
+			if cfg.stablePlain && x%2 == 1 {
+				pt = vProcTypeS
+			}
+			cid := vCID(pt, x)
 			pc[cid] = vDefCfg()
 			pl.Processors = append(pl.Processors, cid)
 		}
@@ -479,9 +618,9 @@ func vRun(cfg *vCfg) (obs *vObs) {
 	set := Settings{
 		Telemetry:        componenttest.NewNopTelemetrySettings(),
 		BuildInfo:        component.NewDefaultBuildInfo(),
-		ReceiverBuilder:  builders.NewReceiver(rc, map[component.Type]receiver.Factory{vRecvType: vRecvFactory}),
-		ProcessorBuilder: builders.NewProcessor(pc, map[component.Type]processor.Factory{vProcType: vProcFactory}),
-		ExporterBuilder:  builders.NewExporter(ec, map[component.Type]exporter.Factory{vExpType: vExpFactory}),
+		ReceiverBuilder:  builders.NewReceiver(rc, map[component.Type]receiver.Factory{vRecvType: vRecvFactory, vRecvTypeS: vRecvFactoryS}),
+		ProcessorBuilder: builders.NewProcessor(pc, map[component.Type]processor.Factory{vProcType: vProcFactory, vProcTypeS: vProcFactoryS}),
+		ExporterBuilder:  builders.NewExporter(ec, map[component.Type]exporter.Factory{vExpType: vExpFactory, vExpTypeS: vExpFactoryS}),
 		ConnectorBuilder: builders.NewConnector(cc, cf),
 		PipelineConfigs:  pcfg,
 	}
@@ -616,45 +755,56 @@ func vRun(cfg *vCfg) (obs *vObs) {
 			obs.started = append(obs.started, keyOf[c.serial])
 		}
 	}
-	// inject one tagged payload at every receiver instance
-	for _, r := range reg.comps {
-		if r.kind != 0 {
-			continue
+	// inject one tagged payload at every receiver instance — once as a fresh mutable payload, once marked
+	// read-only (a receiver may share its payload with somebody else; mutating consumers must then get a clone)
+	for _, ro := range []bool{false, true} {
+		target := obs.deliv
+		if ro {
+			target = obs.delivRO
 		}
-		for _, e := range reg.comps {
-			e.got = nil
-		}
-		tag := "T" + strconv.Itoa(r.serial)
-		func() {
-			defer func() {
-				if x := recover(); x != nil {
-					obs.problems = append(obs.problems, [2]string{"panic-in-dataflow", fmt.Sprint(x)})
-				}
-			}()
-			if err := vSend(context.Background(), r.next, vNewData(r.sigIn, tag)); err != nil {
-				obs.problems = append(obs.problems, [2]string{"consume-error", err.Error()})
-			}
-		}()
-		rk := keyOf[r.serial]
-		obs.deliv[rk] = []vDelivery{}
-		for _, e := range reg.comps {
-			if e.kind != 2 {
-				for range e.got {
-					obs.problems = append(obs.problems, [2]string{"non-exporter-recorded", ""})
-				}
+		for _, r := range reg.comps {
+			if r.kind != 0 {
 				continue
 			}
-			for _, tr := range e.got {
-				parts := strings.Split(tr, ";")
-				if parts[0] != tag {
-					obs.problems = append(obs.problems, [2]string{"foreign-payload", fmt.Sprintf("exporter %s got %q during injection %s", keyOf[e.serial], tr, tag)})
+			for _, e := range reg.comps {
+				e.got = nil
+			}
+			tag := "T" + strconv.Itoa(r.serial)
+			func() {
+				defer func() {
+					if x := recover(); x != nil {
+						obs.problems = append(obs.problems, [2]string{"panic-in-dataflow", fmt.Sprintf("payload read-only=%v injected at %s: %v", ro, keyOf[r.serial], x)})
+					}
+				}()
+				data := vNewData(r.sigIn, tag)
+				if ro {
+					vMarkRO(data)
 				}
-				d := vDelivery{exp: keyOf[e.serial]}
-				for _, p := range parts[1:] {
-					n, _ := strconv.Atoi(p)
-					d.trail = append(d.trail, keyOf[n])
+				if err := vSend(context.Background(), r.next, data); err != nil {
+					obs.problems = append(obs.problems, [2]string{"consume-error", err.Error()})
 				}
-				obs.deliv[rk] = append(obs.deliv[rk], d)
+			}()
+			rk := keyOf[r.serial]
+			target[rk] = []vDelivery{}
+			for _, e := range reg.comps {
+				if e.kind != 2 {
+					for range e.got {
+						obs.problems = append(obs.problems, [2]string{"non-exporter-recorded", ""})
+					}
+					continue
+				}
+				for _, tr := range e.got {
+					parts := strings.Split(tr, ";")
+					if parts[0] != tag {
+						obs.problems = append(obs.problems, [2]string{"foreign-payload", fmt.Sprintf("exporter %s got %q during injection %s", keyOf[e.serial], tr, tag)})
+					}
+					d := vDelivery{exp: keyOf[e.serial]}
+					for _, p := range parts[1:] {
+						n, _ := strconv.Atoi(p)
+						d.trail = append(d.trail, keyOf[n])
+					}
+					target[rk] = append(target[rk], d)
+				}
 			}
 		}
 	}
@@ -955,14 +1105,20 @@ func vCompare(out *vOut, term string, cfg *vCfg, obs *vObs, ex *vExpect) {
 	if len(obs.deliv) != len(ex.deliv) {
 		out.Oracle("receiver-set", term, fmt.Sprintf("expected %d receivers, injected at %d", len(ex.deliv), len(obs.deliv)))
 	}
-	for rk, wantL := range ex.deliv {
-		gotL := []string{}
-		for _, d := range obs.deliv[rk] {
-			gotL = append(gotL, vDelivStr(d))
+	for pass, delivered := range []map[vNodeKey][]vDelivery{obs.deliv, obs.delivRO} {
+		kind := "routing"
+		if pass == 1 {
+			kind = "routing-readonly-payload"
 		}
-		sort.Strings(gotL)
-		if a, b := strings.Join(wantL, " "), strings.Join(gotL, " "); a != b {
-			out.Oracle("routing", term, fmt.Sprintf("receiver %s: configuration paths [%s] observed [%s]", rk, a, b))
+		for rk, wantL := range ex.deliv {
+			gotL := []string{}
+			for _, d := range delivered[rk] {
+				gotL = append(gotL, vDelivStr(d))
+			}
+			sort.Strings(gotL)
+			if a, b := strings.Join(wantL, " "), strings.Join(gotL, " "); a != b {
+				out.Oracle(kind, term, fmt.Sprintf("receiver %s: configuration paths [%s] observed [%s]", rk, a, b))
+			}
 		}
 	}
 }
@@ -1000,16 +1156,20 @@ func vTerm(cfg *vCfg, obs *vObs) string {
 				}
 			}
 		}
-		cs = append(cs, vPair(vNat(k), vList(pairs)))
+		cs = append(cs, vPair(vNat(k), vPair(vBool(!cfg.stable[k]), vList(pairs))))
 	}
-	var ds []string
+	var ds, dsro []string
 	rks := append([]vNodeKey(nil), obs.recvs...)
 	for _, rk := range rks {
-		var xs []string
+		var xs, ys []string
 		for _, d := range obs.deliv[rk] {
 			xs = append(xs, vPair(d.exp.term(), vKeys(d.trail)))
 		}
+		for _, d := range obs.delivRO[rk] {
+			ys = append(ys, vPair(d.exp.term(), vKeys(d.trail)))
+		}
 		ds = append(ds, vPair(rk.term(), vList(xs)))
+		dsro = append(dsro, vPair(rk.term(), vList(ys)))
 	}
 	var rs []string
 	for _, ck := range obs.connKeys {
@@ -1021,12 +1181,12 @@ func vTerm(cfg *vCfg, obs *vObs) string {
 	}
 	cls := obs.class
 	return vPair(vPair(vList(ps), vList(cs)),
-		vPair(vBool(obs.validateOK), vPair(vNat(cls), vPair(vKeys(obs.detail), vPair(vKeys(obs.created), vPair(vKeys(obs.started), vPair(vList(ds), vList(rs))))))))
+		vPair(vBool(obs.validateOK), vPair(vNat(cls), vPair(vKeys(obs.detail), vPair(vKeys(obs.created), vPair(vKeys(obs.started), vPair(vList(ds), vPair(vList(dsro), vList(rs)))))))))
 }
 
 // ---- generator -----------------------------------------------------------------------------------------
 func vGen(rng *vRand, out *vOut) *vCfg {
-	cfg := &vCfg{conns: map[int]uint16{}}
+	cfg := &vCfg{conns: map[int]uint16{}, stable: map[int]bool{}}
 	np := 1 + rng.Pick(10, 20, 25, 20, 15, 10)
 	nsig := 1 + rng.Pick(35, 35, 20, 10) // how many signals are in play
 	sigs := []int{0, 1, 2, 3}
@@ -1087,6 +1247,12 @@ func vGen(rng *vRand, out *vOut) *vCfg {
 			}
 		}
 		cfg.conns[k] = m
+		// built with the stable connector.NewFactory (rarer when profiles pipelines exist: it cannot serve them)
+		if vHas(sigs, 3) {
+			cfg.stable[k] = rng.Intn(100) < 15
+		} else {
+			cfg.stable[k] = rng.Intn(100) < 50
+		}
 		cfg.order = append(cfg.order, k)
 		nl := 1 + rng.Pick(55, 30, 15)
 		for l := 0; l < nl; l++ {
@@ -1127,6 +1293,19 @@ func vGen(rng *vRand, out *vOut) *vCfg {
 			}
 		}
 	}
+	// a chain through all pipelines, one connector per hop (deep paths)
+	if np >= 3 && rng.Intn(100) < 15 {
+		for i := 0; i+1 < np; i++ {
+			k := 20 + i
+			a, b := cfg.pipes[i].sig, cfg.pipes[i+1].sig
+			m := uint16(1<<uint(a*4+b)) | uint16(rng.U64()&rng.U64())
+			cfg.conns[k] = m
+			cfg.stable[k] = a != 3 && b != 3 && rng.Bool()
+			cfg.order = append(cfg.order, k)
+			cfg.pipes[i].exps = append(cfg.pipes[i].exps, k)
+			cfg.pipes[i+1].recv = append(cfg.pipes[i+1].recv, k)
+		}
+	}
 	// a pipeline fed / drained by connectors only (drop its plain receivers / exporters)
 	for i := range cfg.pipes {
 		p := &cfg.pipes[i]
@@ -1153,6 +1332,14 @@ func vGen(rng *vRand, out *vOut) *vCfg {
 			}
 		}
 	}
+	// plain components from the stable factory constructors (they carry no profiles)
+	hasProfiles := false
+	for _, p := range cfg.pipes {
+		if p.sig == 3 {
+			hasProfiles = true
+		}
+	}
+	cfg.stablePlain = !hasProfiles && rng.Bool()
 	// invalid configurations (rejected by Validate; Build is still exercised)
 	switch rng.Pick(92, 3, 2, 3) {
 	case 1:
@@ -1174,6 +1361,16 @@ func vStats(out *vOut, cfg *vCfg, obs *vObs) {
 	out.Stat(fmt.Sprintf("connectors_%d", len(cfg.conns)), 1)
 	if !obs.validateOK {
 		out.Stat("validate_rejects", 1)
+	}
+	for _, k := range cfg.order {
+		if cfg.stable[k] {
+			out.Stat("connectors_from_stable_factory", 1)
+		} else {
+			out.Stat("connectors_from_xconnector_factory", 1)
+		}
+	}
+	if cfg.stablePlain {
+		out.Stat("configs_with_stable_plain_factories", 1)
 	}
 	if obs.class != 0 {
 		return
@@ -1197,6 +1394,23 @@ func vStats(out *vOut, cfg *vCfg, obs *vObs) {
 		}
 	}
 	out.Stat(fmt.Sprintf("max_connector_hops_%d", maxHops), 1)
+	// receivers whose only downstream consumer is one pipeline that mutates (the lone-mutating-consumer fan-out)
+	for _, p := range cfg.pipes {
+		for _, r := range p.recv {
+			if cfg.isConn(r) {
+				continue
+			}
+			n := 0
+			for _, q := range cfg.pipes {
+				if q.sig == p.sig && vHas(q.recv, r) {
+					n++
+				}
+			}
+			if n == 1 {
+				out.Stat("receiver_uses_with_single_pipeline", 1)
+			}
+		}
+	}
 	out.Stat("deliveries_total", nd)
 	if shared > 0 {
 		out.Stat("configs_with_fanout", 1)
@@ -1266,7 +1480,9 @@ func TestVerifC09(t *testing.T) {
 						pa, pb := sa, sb
 						pa.sig, pa.name = pids[a][0], pids[a][1]
 						pb.sig, pb.name = pids[b][0], pids[b][1]
-						cfg := &vCfg{pipes: []vPipe{pa, pb}, conns: map[int]uint16{10: m}, order: []int{10}}
+						// the four factory variants (x / stable connector factory, x / stable plain factories) in turn
+						cfg := &vCfg{pipes: []vPipe{pa, pb}, conns: map[int]uint16{10: m}, order: []int{10},
+							stable: map[int]bool{10: cnt%2 == 1}, stablePlain: cnt%4 >= 2}
 						vOne(out, cfg)
 						cnt++
 					}
